@@ -13,6 +13,46 @@ CHECKS = {
         text="TLC enumerates/simulates behaviours of the SolverSM specification (every depth<=1 operator form x operand kind x operand order; interleaved declare/ensure/solve histories), each behaviour is executed on the real Solver (z3 backend) together with seeded random deep sessions, and every recorded event is judged by TLC against the specification (satisfiability verdict by exhaustive pruned search of the declared domains, returned sol checked as a model with Python types). Bounded exhaustive + sampled: finds any operator mistranslation or lost constraint that manifests on small domains.",
         note="trusted: TLC, CspSem.tla Eval (the written-down meaning), the 60-line exporter/driver (harness/dx.py, export.py); z3-solver 5.1 is the only real solving path offline; scopes bounded (<=6 vars, domain product <=300/7000, depth<=4)",
         ref="DESIGN.md 5 C01"),
+    "C02": dict(
+        technique="TLA+ refinement-loop spec (SolveLoop) model-checked; behaviours replayed through an adversarial policy backend; traces judged by TLC",
+        text="SolveLoop.tla models Solver.solve's refute/re-solve/demote loop with a nondeterministic correct backend; TLC proves Exact/DemotionSound/Progress/termination for every model set over a 3-variable universe, every key subset and every backend choice sequence (34 744 behaviours). Each behaviour drives the real Solver.solve through a policy backend that answers correctly for the clauses it actually receives; the recorded conversation and final ret/sol are judged by TLC (Trace_SolveLoop). In addition z3 sessions with solve() are judged by Trace_Session (facts from all models of the driver's meaning).",
+        note="trusted: TLC, CspSem!Eval, the policy backend (its answers are re-checked by TLC per run); native-deduction replies are covered in C03; 3-variable universe exhaustive, 4-variable sampled (thorough)",
+        ref="DESIGN.md 5 C02"),
+    "C04": dict(
+        technique="TLC enumerates graphs x patterns with the definitional verdict (GraphDefs); replay into real helper + z3; emitted native program judged by TLC (Trace_Emit)",
+        text="Every labelled graph on <=4 vertices, a catalogue to 8 vertices and grids to 3x4: ALL 2^n activity patterns, acyclic on/off, is_active as variables / negated / compound / constants / arrays. Verdict of the real encoding (z3) must equal Connected/IsTree computed by TLC; the native-primitive program is exported and decided by TLC for every pattern. Small-scope exhaustive.",
+        note="trusted: GraphDefs.tla definitions, TLC, z3 as the solving path for the auxiliary-variable encoding; native operator meaning = CspSem!EvalGraphConn (no native solver offline)",
+        ref="DESIGN.md 5 C04"),
+    "C05": dict(
+        technique="TLC enumerates labelings with DivOK (GraphDefs); replay into division_connected + z3; native program judged by TLC",
+        text="Graphs <=4 vertices + catalogue + grids, num_regions 1..3, all R^n labelings, 4 roots options, allow_empty on/off, both encodings; verdict must equal the definition for every labeling.",
+        note="as C04; label variables declared 0..R-1",
+        ref="DESIGN.md 5 C05"),
+    "C06": dict(
+        technique="TLC enumerates edge subsets with SingleCycle/SinglePath/Touched; replay + z3 (returned array through solve()); native programs judged by TLC",
+        text="Loop-free multigraphs (parallel edges), simple graphs <=4 vertices, catalogue, grid frames: all 2^m edge subsets; cycle via z3 with the returned array registered as answer keys and required to be fully decided and equal to the visited set; cycle and path native programs decided by TLC on the line graph the code built.",
+        note="as C04",
+        ref="DESIGN.md 5 C06"),
+    "C07": dict(
+        technique="TLC enumerates set partitions / border patterns with Realisable/BorderOK; replay + z3; native graph-division program judged by TLC",
+        text="All set partitions (restricted growth strings) of graphs <=5 vertices and grids <=2x3 under 7 size specifications (absent, constants, shared variable, per-vertex lists with holes); all 2^m border patterns of graphs and inner grid frames under 6 size specifications, both encodings.",
+        note="as C04; native graph-division meaning = CspSem!EvalGraphDiv; grid-form native programs only for boards <= 4 cells (free size variables must be searched by TLC)",
+        ref="DESIGN.md 5 C07"),
+    "C08": dict(
+        technique="TLC enumerates patterns with NotAdj/NotSeg; replay into both helpers (grid specialisation and explicit-graph form) + z3",
+        text="Graphs <=4/5 vertices, catalogue, grids incl. 1xN and Nx1 up to 4x4 (thorough): all patterns; grid specialisation and explicit-graph form compared through the definition.",
+        note="as C04",
+        ref="DESIGN.md 5 C08"),
+    "C09": dict(
+        technique="TLC enumerates edge subsets with Forest; replay into active_edges_acyclic + z3",
+        text="Loop-free multigraphs with parallel edges, all 2^m subsets, edge flags as variables, negations, compound expressions, constants.",
+        note="as C04",
+        ref="DESIGN.md 5 C09"),
+    "C10": dict(
+        technique="TLC enumerates segment subsets with the strand definition (Crossable/Passed/Cross); replay + z3 through solve(); native program judged by TLC",
+        text="Frames up to 2x2 (4096 subsets) and 1x3/3x1, single_cycle on/off, both encodings, both returned arrays compared with the definition in every satisfying assignment.",
+        note="as C04",
+        ref="DESIGN.md 5 C10"),
 }
 
 NOT_APPLICABLE = {}
